@@ -218,6 +218,15 @@ pub(crate) struct GlobalCollector {
     commit_collects: Vec<CommitCollect>,
     submit_spans: Vec<SubmitSpans>,
     stale_spans: Vec<SpanCollection>,
+
+    // With `cancelable`, span sets that arrived before the `StartCollect` of their trace (which
+    // travels through the queue of the thread that created the root) are kept for one cycle.
+    held_spans: Vec<HeldSpans>,
+}
+
+struct HeldSpans {
+    spans: Arc<SpanSet>,
+    collect_token: CollectToken,
 }
 
 impl GlobalCollector {
@@ -233,6 +242,7 @@ impl GlobalCollector {
             commit_collects: vec![],
             submit_spans: vec![],
             stale_spans: vec![],
+            held_spans: vec![],
         };
 
         *GLOBAL_COLLECTOR.lock() = Some(global_collector);
@@ -298,6 +308,7 @@ impl GlobalCollector {
             drop_collects.clear();
             commit_collects.clear();
             submit_spans.clear();
+            self.held_spans.clear();
             #[cfg(feature = "verif")]
             crate::verif::hit(crate::verif::Point::CycleEnd);
             return;
@@ -320,6 +331,26 @@ impl GlobalCollector {
             }
         }
         self.drop_collects.drain(..ready_drops);
+
+        // Span sets kept by the previous cycle: by now the `StartCollect` of their trace has been
+        // received if the trace was just starting; otherwise the trace is over and they are dropped.
+        for HeldSpans {
+            spans,
+            collect_token,
+        } in self.held_spans.drain(..)
+        {
+            for item in &collect_token {
+                if let Some(active_collector) = self.active_collectors.get_mut(&item.collect_id) {
+                    active_collector
+                        .span_collections
+                        .push(SpanCollection::Shared {
+                            spans: spans.clone(),
+                            trace_id: item.trace_id,
+                            parent_id: item.parent_id,
+                        });
+                }
+            }
+        }
 
         for SubmitSpans {
             spans,
@@ -344,9 +375,17 @@ impl GlobalCollector {
                         trace_id: item.trace_id,
                         parent_id: item.parent_id,
                     });
+                } else {
+                    // The root may have been created by another thread whose queue was drained
+                    // before it sent the `StartCollect`: look again in the next cycle.
+                    self.held_spans.push(HeldSpans {
+                        spans: Arc::new(spans),
+                        collect_token,
+                    });
                 }
             } else {
                 let spans = Arc::new(spans);
+                let mut unknown = CollectToken::new();
                 for item in &collect_token {
                     if let Some(active_collector) = self.active_collectors.get_mut(&item.collect_id)
                     {
@@ -363,7 +402,15 @@ impl GlobalCollector {
                             trace_id: item.trace_id,
                             parent_id: item.parent_id,
                         });
+                    } else {
+                        unknown.push(*item);
                     }
+                }
+                if !unknown.is_empty() {
+                    self.held_spans.push(HeldSpans {
+                        spans,
+                        collect_token: unknown,
+                    });
                 }
             }
         }
